@@ -1666,6 +1666,10 @@ struct TupleDriver : DriverBase<TupleDriver<A, B, C>> {
         if (op == "tuple_cat") {
             // rvalue arguments only (lvalue arguments do not compile today: known finding)
             // (a move-only element does not compile either: tuple has no deduction guide for it; known finding)
+#if defined(__clang__)
+            // clang 14 cannot compile etl::tuple_cat (class template argument deduction inside its generic lambda)
+            skip();
+#else
             if constexpr (copyable) {
                 int got[5] = {-1, -1, -1, -1, -1};
                 bool ok    = call(-1, false, false, [&] {
@@ -1684,6 +1688,7 @@ struct TupleDriver : DriverBase<TupleDriver<A, B, C>> {
             } else {
                 skip();
             }
+#endif
             return;
         }
         skip();
@@ -1736,6 +1741,8 @@ void add(std::string name, std::vector<std::string> props)
     s.ops      = D::ops();
     s.props    = std::move(props);
     s.maxSteps = 30;
+    // the tuple scenarios skip tuple_cat under clang 14 (it cannot compile it): not comparable between the compilers
+    s.compilerNeutral = s.name.rfind("tuple<", 0) != 0;
     s.run      = [](Plan const& p, Ctx& c) {
         D d(p, c);
         d.run();
